@@ -134,15 +134,6 @@ func decodeDatadogChunk(data []byte) ([]event, error) {
 	return out, nil
 }
 
-func sortedKeys(e event) []string {
-	ks := make([]string, 0, len(e))
-	for k := range e {
-		ks = append(ks, k)
-	}
-	sort.Strings(ks)
-	return ks
-}
-
 // diffEvents lists the keys on which two decoded views disagree (missing, extra or different value).
 func diffEvents(got, want event, ignore map[string]bool) []string {
 	var ks []string
